@@ -2,7 +2,9 @@ package main
 
 import (
 	"encoding/json"
+	"fmt"
 	"reflect"
+	"strings"
 
 	tls "github.com/refraction-networking/utls"
 	"verif/harness/hlib"
@@ -101,7 +103,10 @@ func descSpec(spec *tls.ClientHelloSpec) map[string]any {
 // dumpspecs: {"ids": [...]} (empty = all predefined parrots) -> one event {"specs": {name: desc}}
 func init() {
 	hlib.Register("dumpspecs", func(in []byte, out *hlib.Out) error {
-		var req struct{ IDs []string }
+		var req struct {
+			IDs   []string // empty = every predefined parrot
+			Extra []string // additional (seeded randomized) ids, dumped besides the chosen ones
+		}
 		json.Unmarshal(in, &req)
 		specs := map[string]any{}
 		ids := hlib.ParrotIDs
@@ -116,7 +121,29 @@ func init() {
 			}
 		}
 		shuffling := []string{}
+		// seeded randomized ids ("Randomized-ALPN@7"): the spec is whatever the generator produced for that seed,
+		// read back from a built UConn (GREASE placeholders are already replaced by concrete GREASE values there)
+		for _, n := range append(append([]string{}, req.IDs...), req.Extra...) {
+			if !strings.Contains(n, "@") {
+				continue
+			}
+			id, err := hlib.LookupID(n)
+			if err != nil {
+				return err
+			}
+			c, _ := hlib.BufPipe()
+			uc := tls.UClient(c, &tls.Config{ServerName: "example.com"}, id)
+			if err := uc.BuildHandshakeState(); err != nil {
+				return fmt.Errorf("%s: %w", n, err)
+			}
+			sp := tls.ClientHelloSpec{CipherSuites: uc.HandshakeState.Hello.CipherSuites,
+				CompressionMethods: uc.HandshakeState.Hello.CompressionMethods, Extensions: uc.Extensions}
+			specs[n] = descSpec(&sp)
+		}
 		for _, id := range ids {
+			if id.Seed != nil {
+				continue
+			}
 			spec, err := tls.UTLSIdToSpec(id)
 			if err != nil {
 				return err
